@@ -394,8 +394,94 @@ func c13HashSeq(seq []frag) uint64 {
 
 // ---- hostile histories: whatever is returned must be made of bytes that fragments placed at those offsets ---------
 
+// c13Oversize: complete, hole-free sets whose header + payload exceed 65 535 bytes (ping-of-death shape). Whatever is
+// returned must have a Length consistent with header and payload - which a 16-bit Length cannot be - so the only
+// acceptable outcomes are an error or nothing.
+func c13Oversize(c *vlib.Ctx, r *vlib.Rand) {
+	df := ip4defrag.NewIPv4Defragmenter()
+	withOpts := r.Bool()
+	d := c13NewDgram(r, 0, 0, withOpts)
+	hdr := 20 + d.opt1
+	L := 65535 - hdr + r.Range(1, 60) // 1..60 bytes too many
+	if r.Chance(1, 4) {
+		L = 65535 - hdr - r.Intn(2)*8 // control: the largest datagrams that do fit must still be rebuilt
+	}
+	d.payload = r.Bytes(L)
+	// partition with the last fragment starting at or below offset 8183*8 so that it passes the per-fragment checks
+	nf := r.Range(2, 12)
+	c13Partition(r, d, nf)
+	last := &d.frags[len(d.frags)-1]
+	if last.off > 8183*8 {
+		// merge the tail into one last fragment starting at 8183*8 or lower
+		cut := (8183 - r.Intn(4)) * 8
+		var fr []frag
+		for _, f := range d.frags {
+			if f.off+len(f.data) <= cut {
+				fr = append(fr, f)
+			} else if f.off < cut {
+				f.data = d.payload[f.off:cut]
+				f.more = true
+				fr = append(fr, f)
+			}
+		}
+		fr = append(fr, frag{idx: len(fr), off: cut, data: d.payload[cut:], more: false, optLen: d.optN})
+		for i := range fr {
+			fr[i].idx = i
+		}
+		d.frags = fr
+	}
+	seq := append([]frag{}, d.frags...)
+	if r.Bool() {
+		p := r.Perm(len(seq))
+		s2 := make([]frag, len(seq))
+		for a, b := range p {
+			s2[a] = seq[b]
+		}
+		seq = s2
+	}
+	var log []string
+	fits := hdr+L <= 65535
+	for step, f := range seq {
+		wire := c13Wire(d, f, r)
+		if len(wire) > 65535 {
+			return
+		}
+		in, err := c13Decode(wire)
+		if err != nil {
+			return
+		}
+		log = append(log, fmt.Sprintf("[%d,%d)%s o%d", f.off, f.off+len(f.data), map[bool]string{true: "MF", false: ""}[f.more], f.optLen))
+		var out *layers.IPv4
+		if pi := vlib.Guard(func() { out, _ = df.DefragIPv4WithTimestamp(in, c13Base.Add(time.Duration(step)*time.Second)) }); pi != nil {
+			c.Violation(pi.Key, "DefragIPv4WithTimestamp panicked on an oversize set: "+pi.Value, log)
+			return
+		}
+		if out == nil {
+			continue
+		}
+		c.Count("oversize_tier_results", 1)
+		switch {
+		case int(out.Length) != int(out.IHL)*4+len(out.Payload):
+			c.Violation("oversize-set-returned", fmt.Sprintf("a set with %d header + %d payload bytes was returned as a datagram with Length=%d, IHL=%d, %d payload bytes", hdr, L, out.Length, out.IHL, len(out.Payload)), log)
+		case !bytes.Equal(out.Payload, d.payload):
+			c.Violation("complete-payload-differs", "oversize tier: returned payload differs from the original", log)
+		}
+	}
+	c.Count("oversize_sets_fed", 1)
+	if fits {
+		c.Count("oversize_tier_controls_that_fit", 1)
+	}
+}
+
 func c13Hostile(c *vlib.Ctx) {
 	n := c.Pick(1500, 25000)
+	for i := 0; i < c.Pick(40, 400); i++ {
+		if !c.Begin(1000000 + i) {
+			continue
+		}
+		c13Oversize(c, c.Rand(uint64(1000000+i)))
+		c.End()
+	}
 	for i := 0; i < n+2; i++ {
 		if !c.Begin(i) {
 			continue
